@@ -61,7 +61,7 @@ mod proofs {
 
     // @harness id=C16 tier=quick unwind=26 timeout=1800
     // @desc fill_bytes output is the seeded stream regardless of chunking: two consecutive reads return exactly stream[pos..pos+l1] and stream[pos+l1..pos+l1+l2], also when a read straddles the 4096-byte refill or starts exactly at it; the refill counter advances once per refill; next_u32/next_u64 return the little-endian words at the next 4-/8-aligned stream offset (refilling when the aligned word does not fit)
-    // @bounds generator states and chunkings (pos, l1, l2) in {(4080,3,5), (4090,3,8), (4090,6,16), (4088,8,8), (4096,16,5), (4093,3,1), (4072,16,16)} and word reads at pos in {4083, 4089, 4093, 4096}; stream bytes symbolic in the 48-byte window around the refill boundary
+    // @bounds generator states and chunkings (pos, l1, l2) in {(4080,3,5), (4090,3,8), (4090,6,16), (4088,8,8), (4096,16,5), (4093,3,1), (4072,16,16), (4089,6,7), (4095,1,4), (4092,3,1), (4095,5,0) -- the last four make a read START on the last byte of the buffer} and word reads at pos in {4083, 4089, 4093, 4096}; stream bytes symbolic in the 48-byte window around the refill boundary
     // @funcs BlakeRNG::fill_bytes, BlakeRNG::next_u32, BlakeRNG::next_u64
     // @stubs BlakeRNG::refill_buffer -> next block of a symbolic stream (BLAKE3 XOF outside the claim)
     #[kani::proof]
@@ -71,6 +71,7 @@ mod proofs {
         match c {
             0 => chunk_case(4080, 3, 5), 1 => chunk_case(4090, 3, 8), 2 => chunk_case(4090, 6, 16), 3 => chunk_case(4088, 8, 8),
             4 => chunk_case(4096, 16, 5), 5 => chunk_case(4093, 3, 1), 6 => chunk_case(4072, 16, 16),
+            12 => chunk_case(4089, 6, 7), 13 => chunk_case(4095, 1, 4), 14 => chunk_case(4092, 3, 1), 15 => chunk_case(4095, 5, 0),
             7 => word_case(4083, true), 8 => word_case(4089, true), 9 => word_case(4093, false), 10 => word_case(4096, false), _ => word_case(4096, true),
         }
     }
